@@ -52,8 +52,8 @@ func addSpec(s *Spec) {
 	specs[s.ID] = s
 }
 
-var portfolioMain = []string{"p1", "p2", "p3", "p4", "p5", "p8"}
-var portfolioAll = []string{"p1", "p10", "p11", "p12", "p2", "p3", "p4", "p5", "p6", "p7", "p8", "p9"}
+var portfolioMain = []string{"p1", "p14", "p2", "p3", "p4", "p5", "p8"}
+var portfolioAll = []string{"p1", "p10", "p11", "p12", "p14", "p2", "p3", "p4", "p5", "p6", "p7", "p8", "p9"}
 
 func init() {
 	addSpec(&Spec{ID: "C01", Title: "write-then-read returns exactly the records added", Level: "exploration",
